@@ -126,3 +126,26 @@ def run(F, ctx):
         if not ok:
             ctx.violation("%s:R-C10-c:shared-map" % n, "%s does not give the per-query engine a freshly built map that contains the caller's session facts (session facts could land in the shared snapshot map, or be dropped)" % n.split("::")[-1], f.where())
     ctx.end_rule()
+
+    # ---- d
+    ctx.rule("R-C10-d", "what a session stores / retracts / adds is the caller's request: it does not depend on the persistent snapshot", floor=4)
+    n_sites = 0
+    for callee in (SM + "::insert_ephemeral", SM + "::retract_ephemeral", SM + "::add_ephemeral_rule"):
+        for c in F.call_sites_of(callee):
+            f = c.fn
+            n_sites += 1
+            loads = [x for x in f.normal_calls() if x.dst and "KnowledgeGraphSnapshot" in f.ty(x.dst["l"])]
+            seeds = {x.dst["l"] for x in loads}
+            # snapshots reached through a guard / Result wrapper
+            for x in f.normal_calls():
+                if x.dst and re.search(r"KnowledgeGraphSnapshot", f.ty(x.dst["l"])):
+                    seeds.add(x.dst["l"])
+            dep = f.derive(seeds, through_calls=True) if seeds else set()
+            payload = [op_local(a) for a in c.args[2:] if op_local(a) is not None]
+            bad = [l for l in payload if l in dep]
+            ctx.site("%s <- %s" % (callee.split("::")[-1], f.name.split("::{closure")[0].split("::")[-1]), c.where(), ok=not bad, snapshot_loads=len(seeds))
+            if bad:
+                ctx.violation("%s:R-C10-d:%s-depends-on-persistent-state" % (f.name, callee.split("::")[-1]), "%s computes what it hands to SessionManager::%s from a persistent snapshot (e.g. drops tuples that are currently persistent): the session's own facts then depend on what other clients have stored - after the persistent copy is deleted the session has lost a fact it inserted" % (f.name.split("::{closure")[0].split("::")[-1], callee.split("::")[-1]), c.where())
+    if n_sites < 4:
+        raise CheckError("only %d session store/retract call sites found" % n_sites)
+    ctx.end_rule()
